@@ -26,6 +26,15 @@ type inode struct {
 	mode     os.FileMode
 	children map[string]*inode
 	ino      int
+	// what each simulated process last saw when it called Stat on this
+	// file: lets a harness tell "removed after the remover had seen an old
+	// mtime" from "removed although the remover saw it freshly used"
+	lastStat map[int]statSeen
+}
+
+type statSeen struct {
+	mtime, at time.Time
+	epoch     int
 }
 
 // FS is one simulated disk.
@@ -33,6 +42,7 @@ type FS struct {
 	root  string
 	top   *inode
 	nino  int
+	epoch int
 	Ops   int            // fs operations executed on simulated paths
 	ByOp  map[string]int // per operation kind
 	Bytes int64
@@ -52,6 +62,9 @@ type OpRec struct {
 	Kind string `json:"kind"`
 	Len  int    `json:"len,omitempty"`
 	Path string `json:"path,omitempty"`
+	// Removed log only: how old (simulated seconds) the file's mtime was
+	// when the removing process last called Stat on it; -1: it never did.
+	StatAge float64 `json:"stat_age,omitempty"`
 }
 
 // Install creates an empty simulated disk for paths below root and attaches
@@ -65,7 +78,11 @@ func Install(root string) *FS {
 
 // Attach attaches an existing disk (e.g. one that survived an earlier run)
 // to the running simulation.
-func Attach(f *FS) { verifsim.Current().Ext = f }
+func Attach(f *FS) {
+	verifsim.Current().Ext = f
+	// process numbers start again in every simulation
+	f.epoch++
+}
 
 func current() *FS {
 	s := verifsim.Current()
@@ -232,6 +249,12 @@ func Stat(name string) (fs.FileInfo, error) {
 	n, err := f.lookup(parts)
 	if err != nil {
 		return nil, perr("stat", name, err)
+	}
+	if !n.dir {
+		if n.lastStat == nil {
+			n.lastStat = map[int]statSeen{}
+		}
+		n.lastStat[verifsim.CurProc()] = statSeen{mtime: n.mtime, at: verifsim.Now(), epoch: f.epoch}
 	}
 	return infoOf(filepath.Base(name), n), nil
 }
@@ -401,7 +424,11 @@ func Remove(name string) error {
 		return perr("remove", name, syscall.ENOTEMPTY)
 	}
 	delete(d.children, base)
-	f.Removed = append(f.Removed, OpRec{Proc: verifsim.CurProc(), Kind: "remove", Path: filepath.Clean(name)})
+	age := -1.0
+	if seen, ok := n.lastStat[verifsim.CurProc()]; ok && seen.epoch == f.epoch {
+		age = seen.at.Sub(seen.mtime).Seconds()
+	}
+	f.Removed = append(f.Removed, OpRec{Proc: verifsim.CurProc(), Kind: "remove", Path: filepath.Clean(name), StatAge: age})
 	return nil
 }
 
